@@ -4,7 +4,8 @@ from props import loop_common as L
 DRV = "loop"
 CRATE = "hx-loop"
 
-RULE = ("hx-loop runs the real bench_loop_threaded under the per-thread virtual clock (frequency mostly 10^12: one tick = 1 ps) "
+RULE = ("[options reach the loop as the runner builds them: every case places each of sample_count, sample_size, min_time, max_time, skip_ext_time on one of four layers (runner, bench, group, outer group), optionally with losing values further out, and the harness merges the layers through the real BenchOptions::overwrite; the model takes the resolved values] "
+        "hx-loop runs the real bench_loop_threaded under the per-thread virtual clock (frequency mostly 10^12: one tick = 1 ps) "
         "with generator/call/drop costs scripted per (round, thread, iteration). Streams: (1) boundary-aimed: min_time or "
         "max_time placed exactly at the elapsed time after some round, and one tick below / above it (costs in whole ns, an "
         "extra of 999/1000/1001 ticks in that round), with and without skip_ext_time, explicit and tuned sizes, T in 1..4, "
